@@ -86,7 +86,9 @@ class WindowedCoordinator:
         window = Duration(max(1, Duration.from_seconds(float(self._window_size)).nanoseconds))
 
         with ThreadPoolExecutor(max_workers=self._max_workers) as pool:
-            while current_time < self._end_time:
+            # At least one window, so that a zero-length run (end_time == start_time)
+            # still delivers the events scheduled exactly at that instant.
+            while current_time < self._end_time or total_windows == 0:
                 # Integer nanoseconds: a float round trip can truncate the
                 # clamped end below end_time and the loop would never finish.
                 window_end = current_time + window
